@@ -234,6 +234,12 @@ pub struct Shared {
     /// at the points where the connection task has released h2's internal locks around I/O
     pub hook: Option<Arc<dyn Fn(&'static str) + Send + Sync>>,
     pub hook_side: Side,
+    /// C19 on T1 (`Cfg::probe`): the stream-store snapshot each connection task took when its connection last returned
+    /// Pending, and the SendRequest that keeps the client connection open until the judge lets go of it
+    pub snaps: [Option<h2::verif::StreamsSnapshot>; 2],
+    /// set by the judge before its final forced polls: only then are snapshots taken (they are dear)
+    pub want_snaps: bool,
+    pub keeper: Option<Box<dyn std::any::Any + Send>>,
 }
 
 pub type Sh = Arc<Mutex<Shared>>;
@@ -255,6 +261,9 @@ pub fn new_shared(prefix: Vec<u32>) -> Sh {
         transport_calls: 0,
         hook: None,
         hook_side: Side::Client,
+        snaps: [None, None],
+        want_snaps: false,
+        keeper: None,
     }))
 }
 
